@@ -233,7 +233,9 @@ CHECKS["C09"] = {
         {"name": "asm-taint", "cmd": ["env", "VX_ASMTAINT_SKIP=static-write", "python3", "{verif}/tools/asmtaint.py"]},
         {"name": "asm-trace", "cmd": ["python3", "{verif}/tools/asmtrace.py"]},
         {"name": "asm-dispatch", "pkg": "sm4", "run": "TestVX_C09_Dispatch", "public_files": SM4P + ["sm4/C09_pub_test.go"]},
+        {"name": "glue-trace", "variant": "tracesm4", "pkg": "sm4", "run": "TestVX_C09_Glue", "public_files": SM4P + ["sm4/C09glue_pub_test.go"], "shards": 8},
     ],
+    "prepare": {"tracesm4": [["bash", "{verif}/tools/prep_trace_sm4.sh", "{repo}"]]},
 }
 
 C17F = SM4P + ["sm4/C17_pub_test.go"]
@@ -261,7 +263,7 @@ CHECKS["C08"] = {
     "level": "exploration",
     "assumptions": ["Go-source granularity: the compiler is assumed not to turn branch-free Go into secret-dependent branches; math/bits and crypto/subtle are intrinsics / trusted constant-time",
                     "only the enumerated secrets are compared; micro-architectural effects are out of scope",
-                    "math/big glue inside SignHashed is outside the primitives the statement lists (recorded as an observation)"],
+                    "three math/big calls of SignHashed that compute the published r from public values are a declared-public whitelist keyed by exact call text"],
     "prepare": {"trace": [["bash", "{verif}/tools/prep_trace.sh", "{repo}"]]},
     "parts": [
         {"name": "ct-trace", "variant": "trace", "pkg": "sm2", "run": "TestVX_C08", "public_files": SM2P + ["sm2/C08_pub_test.go"], "shards": 8},
